@@ -49,6 +49,13 @@ def _map_from_tags(net_old, net_new):
     return M
 
 
+def _unmap_line_switches(M, net, lines):
+    """impedances carry no switches: the line switches of a replaced line are dropped with it (no image)"""
+    for s in net.switch.index:
+        if net.switch.at[s, "et"] == "l" and int(net.switch.at[s, "element"]) in [int(i) for i in lines]:
+            M["el"]["switch"][int(s)] = []
+
+
 def _prune_dead(M, net_old):
     """rows that vanished may only be rows without a result (NaN / zero everywhere); others stay in M so that the
     comparison reports the missing image"""
@@ -206,6 +213,7 @@ def apply_tool(net, t, opts):
     elif k == "drop_inactive":
         _tag(n2)
         tb.drop_inactive_elements(n2)
+        extra["raw_map"] = _map_from_tags(net, n2)
         M = _prune_dead(_map_from_tags(net, n2), net)
     elif k == "merge":
         comp = companion()
@@ -251,6 +259,7 @@ def apply_tool(net, t, opts):
         M = b_tf.identity_map(net)
         for i, j in zip(replaced, new):
             M["el"]["line"][int(i)] = [("impedance", int(j), False)]
+        _unmap_line_switches(M, net, replaced)
     elif k == "line2imp2line":
         new = tb.replace_line_by_impedance(n2, index=[t[1]], only_valid_replace=True)
         if not new:
@@ -261,6 +270,12 @@ def apply_tool(net, t, opts):
             return n2, None, "refused_back", extra
         M = b_tf.identity_map(net)
         M["el"]["line"][int(t[1])] = [("line", int(back[0]), False)]
+        if ((net.switch.et == "l") & (net.switch.element == t[1]) & ~net.switch.closed).any():
+            # a switched-off line comes back as an out-of-service line without switch: electrically the same for the
+            # rest of the net (judged), but its own row reports 0 / bus voltage instead of NaN (not judged)
+            M["el"]["line"][int(t[1])] = []
+        _unmap_line_switches(M, net, [t[1]])
+        skip = ("loading_percent",)
     elif k == "imp2line":
         new = tb.replace_impedance_by_line(n2, index=[t[1]], only_valid_replace=True)
         if not new:
@@ -309,6 +324,7 @@ def apply_tool(net, t, opts):
         M["el"]["xward"][int(t[1])] = [("load", int(nl[0]), False), ("shunt", int(ns[0]), False),
                                        ("impedance", int(ni[0]), False, {"p_mw": "p_from_mw", "q_mvar": "q_from_mvar"})]
         skip = ("vm_pu", "va_internal_degree", "vm_internal_pu")
+        M["nopq"] = [int(net.xward.at[t[1], "bus"])]     # part of the xward is now a branch: res_bus p/q not comparable
     elif k == "subnet":
         comp = [int(b) for b in t[1]]
         n2 = tb.select_subnet(net, comp)
@@ -317,7 +333,17 @@ def apply_tool(net, t, opts):
         M["bus"] = {b: v for b, v in M["bus"].items() if b in s}
         for tt in list(M["el"]):
             if tt == "switch":
-                keep = [i for i in net.switch.index if int(net.switch.at[i, "bus"]) in s]
+                inv_et = {v: k for k, v in b_tf.SWITCH_ET.items()}
+                keep = []
+                for i in net.switch.index:
+                    et, el = net.switch.at[i, "et"], int(net.switch.at[i, "element"])
+                    if int(net.switch.at[i, "bus"]) not in s:
+                        continue
+                    if et == "b" and el not in s:
+                        continue
+                    if et in inv_et and not all(int(net[inv_et[et]].at[el, c]) in s for c in b_tf.BUS_COLS[inv_et[et]]):
+                        continue        # switch of a branch that leaves the selection
+                    keep.append(i)
             else:
                 cols = b_tf.BUS_COLS[tt]
                 keep = [i for i in net[tt].index if all(int(net[tt].at[i, c]) in s for c in cols)]
